@@ -313,8 +313,12 @@ func runCase(c *hx.Ctx, p *pool, r *hx.Rand, dir string) (n int, events []string
 		jf.WriteString(fmt.Sprintf("z%d\n", ch.slot))
 	}
 	steps := 4 + r.Intn(24)
-	// Process creation dominates the cost of a case: at most two deaths per case.
-	deaths := r.Intn(3)
+	// Process creation dominates the cost of a case (and is very expensive on a
+	// loaded host): most cases have no death, some one, few two.
+	deaths := []int{0, 0, 0, 0, 1, 1, 2}[r.Intn(7)]
+	if os.Getenv("VERIF_C28_NODEATH") != "" {
+		deaths = 0
+	}
 	for i := 0; i < steps; i++ {
 		live := alive()
 		if len(live) == 0 {
@@ -473,7 +477,8 @@ func oracle(n int, evs []string) string {
 							return fmt.Sprintf("class=two-holders event %d: process %d acquired the lock while process %d holds it", i, p, q)
 						}
 					}
-					x.definite, x.possible = true, true
+					// a process that has already been signalled may be gone at any moment
+					x.definite, x.possible = !x.dead, true
 					if cmd == "l" {
 						x.held = true
 					}
